@@ -18,6 +18,9 @@ func EBool(b bool) E       { return E{"k": "bool", "v": b} }
 func EInt(n int) E         { return E{"k": "int", "v": n} }
 func EFloat(num, sh int) E { num, sh = normDyadic(num, sh); return E{"k": "float", "num": num, "sh": sh} }
 func EStr(s string) E      { return E{"k": "str", "v": s} }
+
+// EBigInt is an integer literal beyond 32 bits, carried as its decimal digits.
+func EBigInt(digits string) E { return E{"k": "bigint", "v": digits} }
 func EList(items ...E) E {
 	if items == nil {
 		items = []E{}
@@ -149,7 +152,12 @@ func unparse(e E, st Style) string {
 		}
 		return "false"
 	case "int":
+		if s, ok := e["spell"].(string); ok {
+			return s
+		}
 		return strconv.Itoa(toInt(e["v"]))
+	case "bigint":
+		return e["v"].(string)
 	case "float":
 		if s, ok := e["spell"].(string); ok {
 			return s
@@ -387,6 +395,9 @@ func VBool(b bool) V       { return V{"t": "bool", "v": b} }
 func VInt(n int) V         { return V{"t": "int", "v": n} }
 func VFloat(num, sh int) V { num, sh = normDyadic(num, sh); return V{"t": "float", "num": num, "sh": sh} }
 func VStr(s string) V      { return V{"t": "str", "v": s} }
+
+// VBigInt is an integer value beyond 32 bits, carried as its decimal digits.
+func VBigInt(digits string) V { return V{"t": "bigint", "v": digits} }
 func VList(xs ...V) V {
 	if xs == nil {
 		xs = []V{}
@@ -411,6 +422,9 @@ func ToData(v V) data.Value {
 		return data.Bool(v["v"].(bool))
 	case "int":
 		return data.Int(toInt(v["v"]))
+	case "bigint":
+		n, _ := strconv.ParseInt(v["v"].(string), 10, 64)
+		return data.Int(n)
 	case "float":
 		return data.Float(float64(toInt(v["num"])) / math.Pow(2, float64(toInt(v["sh"]))))
 	case "str":
@@ -460,6 +474,8 @@ func LitOf(v V) E {
 		return EBool(v["v"].(bool))
 	case "int":
 		return EInt(toInt(v["v"]))
+	case "bigint":
+		return EBigInt(v["v"].(string))
 	case "float":
 		return EFloat(toInt(v["num"]), toInt(v["sh"]))
 	case "str":
